@@ -218,7 +218,7 @@ func acceptTagA(class byte, idx int) bool { return class == 'A' }
 func runTimed(sc cScenario) cResult {
 	res := cResult{closeT: -1}
 	var inner cResult
-	status := inBubble(20*time.Second, func() {
+	status := inBubble(10*time.Second, func() {
 		r := &inner
 		r.closeT = -1
 		start := time.Now()
